@@ -252,12 +252,11 @@ func main() {
 	}
 	nw := *workers
 	if nw == 0 {
-		nw = 16 / len(sel)
-		if nw < 1 {
-			nw = 1
-		}
-		if nw > 8 {
-			nw = 8
+		// two harnesses at a time, each with most of the machine: a harness with
+		// few, slow paths does not idle the cores and a heavy one is not starved
+		nw = 12
+		if len(sel) == 1 {
+			nw = 16
 		}
 	}
 	budget := time.Duration(*budgetS) * time.Second
@@ -268,15 +267,14 @@ func main() {
 			budget = 4 * time.Minute
 		}
 	}
-	deadline := time.Now().Add(budget)
-	// run harnesses concurrently (bounded)
+	// run harnesses concurrently (bounded); the budget is per harness and starts when it starts
 	results := make([]*HarnessRun, len(sel))
-	sem := make(chan struct{}, maxInt(1, 16/nw))
+	sem := make(chan struct{}, 2)
 	done := make(chan int, len(sel))
 	for i, s := range sel {
 		go func(i int, s *HarnessSpec) {
 			sem <- struct{}{}
-			results[i] = eng.RunHarness(s, nw, deadline)
+			results[i] = eng.RunHarness(s, nw, time.Now().Add(budget))
 			<-sem
 			done <- i
 		}(i, s)
